@@ -153,7 +153,7 @@ def relative_sigma(steps: int, off: int, i: int, j: int, k: int, n: int) -> bool
     head = pick(STEPS, steps)
     mid = pick(OFFS, off)
     s = head + mid + _sigma(i, j, k, n)
-    b = JSONPointer(["", "/a", "/a/1", "/a/b/2"][BASE])
+    b = JSONPointer(["", "/a", "/a/1", "/a/b/2", "/a/\u00b2", "/\u2460/x"][BASE])  # 4, 5: tokens that str.isdigit() accepts and int() refuses
     try:
         r = RelativeJSONPointer(s, unicode_escape=UE)
     except (RelativeJSONPointerError, JSONPointerError) as e:
